@@ -13,7 +13,7 @@ def registry():
     reg = {}
     reg.update(checks_classify.REGISTRY)
     for modname in ("checks_load", "checks_curves", "checks_hydro", "checks_txn",
-                    "checks_hydraulics", "checks_pest", "ext_checks", "testtrace"):
+                    "checks_hydraulics", "checks_pest", "ext_checks", "testtrace", "plot_checks"):
         try:
             mod = __import__("harness." + modname, fromlist=["REGISTRY"])
         except ModuleNotFoundError as e:
